@@ -116,6 +116,10 @@ func (r *stateResolver) addConflicted(events []PDU) { // nolint: gocyclo
 	// Separate the auth events into specifically named lists because they have
 	// special rules for state resolution.
 	for _, event := range events {
+		if event.StateKey() == nil {
+			// Not a state event, it can never be part of the resolved state.
+			continue
+		}
 		key := conflictKey{event.Type(), *event.StateKey()}
 		// Work out which block to add the event to.
 		// By default we add the event to a block in the others list.
